@@ -7,7 +7,7 @@ EXHAUSTIVE = False
 EXPLANATION = ("Three structural clauses: (TAB) the elision-classification algebra of the semantic pass equals its path-set meaning on all 21 inputs "
                "(exhaustive); (KINDSET) the node kinds each generated rule function can close are exactly the rule's own name, its renames and its "
                "creations as written in the grammar text (independent reader llwspec), every written rename/creation being producible; (FRESH) a "
-               "close inside a loop uses a kind assigned in the same iteration. Sampled grammars for the generated-code rules. That the tree equals "
+               "close inside a loop uses a kind assigned in the same iteration; (MARKPOS) the mark of a node creation lies inside the rule's own node. Sampled grammars for the generated-code rules. That the tree equals "
                "the derivation tree (children in source order, marker/creation extents, actions once per visit) is not decided.")
 
 
@@ -15,4 +15,5 @@ def run(ctx, rep):
     tab.elision_tables(ctx, rep)
     noderules.kindset_rule(ctx, rep)
     noderules.fresh_rule(ctx, rep)
+    noderules.markpos_rule(ctx, rep)
     common.corpus_note(ctx, rep)
